@@ -227,3 +227,92 @@ package meta
 
 //@ frame call((*metabase.keyBuffer).alloc) only in prepareMetaAttrIDKey, prepareMetaIDAttrKey, (*metaAttributeSeeker).Get
 //@   property C03
+
+// ---- C01: the status an object has in every view. Reference rules over the three answers
+// (expired at the current epoch, locked by a live lock, tombstone/garbage status):
+//   direct status  = expired ? (locked ? available : expired)
+//                            : (marked and locked ? available : mark status)
+//   status         = worse of the direct status and the parent's status, when the direct status
+//                    is available or garbage-marked and the object has a parent (depth <= 2)
+// and every view (exists, get, search, EC part resolution, lock admission) asks for the
+// inheriting status: the direct one is used only inside that computation.
+
+//@ ghost pred stExpired() bool
+//@ ghost pred stLocked() bool
+//@ ghost pred stMark() uint8
+//@ ghost pred stDirect() uint8
+//@ ghost pred stParent() uint8
+//@ ghost pred stHasParent() bool
+
+//@ callrule c01_expiry_answer in objectStatusDirect
+//@   property C01
+//@   callee metabase.isExpired
+//@   pureeffect
+//@   defines result == stExpired()
+//@ callrule c01_lock_answer in objectStatusDirect
+//@   property C01
+//@   callee metabase.objectLocked
+//@   pureeffect
+//@   defines result == stLocked()
+//@ callrule c01_mark_answer in objectStatusDirect
+//@   property C01
+//@   callee metabase.inGarbage
+//@   pureeffect
+//@   defines result == stMark() && result <= statusTombstoned
+//@ func objectStatusDirect
+//@   property C01
+//@   ensures [one_of_the_four_statuses] result <= statusExpired
+//@   ensures [live_lock_overrides_expiry_and_marks] result == ite(stExpired(), ite(stLocked(), statusAvailable, statusExpired), ite(stMark() != statusAvailable && stLocked(), statusAvailable, stMark()))
+
+//@ callrule c01_direct_answer in objectStatusNested
+//@   property C01
+//@   callee metabase.objectStatusDirect
+//@   pureeffect
+//@   defines result == stDirect()
+//@ callrule c01_parent_answer in objectStatusNested
+//@   property C01
+//@   callee metabase.objectStatusNested
+//@   pureeffect
+//@   defines result == stParent()
+//@ callrule c01_parent_lookup in objectStatusNested
+//@   property C01
+//@   callee metabase.findParent
+//@   pureeffect
+//@ callrule c01_parent_presence in objectStatusNested
+//@   property C01
+//@   callee (id.ID).IsZero
+//@   pureeffect
+//@   defines result == !stHasParent()
+//@ func objectStatusNested
+//@   property C01
+//@   ensures [one_of_the_four_statuses] result <= statusExpired
+//@   ensures [child_inherits_the_worse_status_of_its_parent] result == ite((stDirect() == statusAvailable || stDirect() == statusGCMarked) && stHasParent() && nestingLevel < 2, max(stParent(), stDirect()), stDirect())
+
+//@ func objectStatus
+//@   property C01
+//@   ensures [one_of_the_four_statuses] result <= statusExpired
+
+//@ frame call(metabase.objectStatusDirect) only in objectStatusNested
+//@   property C01
+
+// The existence view: an object is reported present only if its container is not removed and
+// its (inheriting) status is available.
+//@ ghost pred viewContainerRemoved() bool
+//@ ghost pred viewStatus() uint8
+//@ callrule c01_exists_container_mark in (*DB).exists
+//@   property C01
+//@   callee metabase.containerMarkedGC
+//@   pureeffect
+//@   defines result == viewContainerRemoved()
+//@ callrule c01_exists_status in (*DB).exists
+//@   property C01
+//@   callee metabase.objectStatus
+//@   pureeffect
+//@   defines result == viewStatus()
+//@ callrule c01_exists_collaborators in (*DB).exists
+//@   property C01
+//@   callee (*bbolt.Tx).*, (*bbolt.Bucket).*, metabase.metaBucketKey, (id.Address).*, (oid.Address).*, metabase.getParentInfo, metabase.fetchTypeForID
+//@   pureeffect
+//@ func (*DB).exists
+//@   property C01
+//@   ensures [present_only_if_container_live_and_status_available] res0 ==> !viewContainerRemoved() && viewStatus() == statusAvailable
